@@ -110,6 +110,7 @@ func cmdCSem(c *ctx) {
 		knob := "clean"
 		setKnob(&o, knob)
 		cKnobs(c, dialect, i, &o, &knob)
+		o.pack4 = true
 		m, feat := genModule(c, o)
 		inp, outp := c.inputWords(16), c.inputWords(16)
 		mod, _ := frontEnd(m.wgsl())
@@ -199,6 +200,7 @@ func cKnobs(c *ctx, dialect string, i int, o *wgenOpts, knob *string) {
 	o.scalarSel = dialect != "msl"
 	o.multiSwz = dialect != "msl" // C04 finding: MSL writes `a + b.yx` for `(a + b).yx`
 	o.contLet = false
+	o.pack4 = false // the `|` chains of pack4xU8 are a recorded finding decided by a shape tag that only cmdCSem computes
 	o.fround = dialect == "hlsl" // HLSL round: halfway cases to the nearest even, as WGSL
 	o.noValIdx = dialect == "msl"
 	o.noPreLet = dialect == "msl"
